@@ -126,6 +126,36 @@ MUTANTS += [
     ("p-ttl", P, "description='Battery Status', ttl=timedelta(milliseconds=1500)", "description='Battery Status', ttl=timedelta(milliseconds=1000)", ["C01"]),
 ]
 
+# ---- second batch -------------------------------------------------------------------------------------------
+MUTANTS += [
+    ("d2-include-early", D, "            if len(self.include_pgns) > 0 and len(self.include_pgns_ids) == 0 and pgn not in self.include_pgns:", "            if len(self.include_pgns) > 0 and pgn not in self.include_pgns:", ["C10"]),
+    ("d2-late-include-or", D, "and pgn not in self.include_pgns and id not in self.include_pgns_ids:", "and (pgn not in self.include_pgns or id not in self.include_pgns_ids):", ["C10"]),
+    ("d2-window-claimed-too", D, "            if source_iso_name is None and self.build_network_map:\n                if self.started_at", "            if self.build_network_map:\n                if self.started_at", ["C11"]),
+    ("d2-fast-first-always-resets", D, "        if frame_counter == 0 and sequence_counter != fast_pgn.sequence_counter:", "        if frame_counter == 0:", ["C04", "C03"]),
+    ("d2-fast-no-first-check", D, "        if frame_counter != 0 and fast_pgn.payload_length == 0:\n            logger.debug(f\"Ignoring frame {frame_counter} for PGN {pgn} as first frame has not been received.\")\n            return None\n", "", ["C04", "C16"]),
+    ("d2-fast-padding-leak", D, "for b in fast_pgn.frames[idx][::-1]][:fast_pgn.payload_length])[::-1]", "for b in fast_pgn.frames[idx][::-1]])[::-1]", ["C04", "C03"]),
+    ("d2-dump-filter-and", D, "or nmea2000Message.PGN in self.dump_include_pgns or id in self.dump_include_pgns_ids):", "or (nmea2000Message.PGN in self.dump_include_pgns and id in self.dump_include_pgns_ids)):", ["C15"]),
+    ("d2-split-no-lower", D, "                str_list.append(pgn.lower())", "                str_list.append(pgn)", ["C10", "C15"]),
+    ("d2-units-not-lowered", D, "        self.preferred_units = {k: v.lower() for k, v in preferred_units.items()}", "        self.preferred_units = dict(preferred_units)", ["C18"]),
+    ("d2-yd-reverse", D, "        can_data = parts[3:][::-1]\n", "        can_data = parts[3:11][::-1]\n", ["C07"]),
+    ("e2-pdu2-ps-dest", E, "            ps = pgn_id & 0xFF\n", "            ps = dest & 0xFF\n", ["C05", "C06"]),
+    ("e2-usb-pad", E, "            for i in range(8-len(message)):", "            for i in range(7-len(message)):", ["C06"]),
+    ("e2-ebyte-pad", E, "+ message + bytes(8 - len(message)))", "+ message + bytes(max(0, 7 - len(message))))", ["C06"]),
+    ("e2-acti-dest-mask", E, "        dest = nmea2000Message.destination & 0xFF\n", "        dest = nmea2000Message.destination & 0x7F\n", ["C06"]),
+    ("e2-acti-pgn-width", E, '        pgn_part = f"{pgn:05X}"', '        pgn_part = f"{pgn:04X}"', ["C06"]),
+    ("e2-fast-flag-none", E, "        if is_fast:\n            bytes_list = self._encode_fast_message(", "        if is_fast and len(can_data_bytes) > 8:\n            bytes_list = self._encode_fast_message(", ["C03", "C06"]),
+    ("i2-no-closed-check-in-retry", I, "                    if self._state == State.CLOSED:\n                        self.logger.info(\"Object terminated. stop connect retry.\")\n                        return\n", "", ["C14"]),
+    ("i2-update-state-always", I, "        if self._state == new_state:\n            return  # State hasn't changed, no need to do anything\n", "", ["C14"]),
+    ("i2-recv-loop-forever", I, "            while self._state != State.CLOSED:\n                await self._receive_impl()", "            while True:\n                await self._receive_impl()", ["C14", "C13"]),
+    ("i2-serial-marker-swapped", I, "            start = self._buffer.find(b\"\\xaa\\x55\")", "            start = self._buffer.find(b\"\\x55\\xaa\")", ["C12", "C20"]),
+    ("i2-serial-drop-half-marker", I, "                keep = 1 if self._buffer.endswith(b\"\\xaa\") else 0", "                keep = 0", ["C12", "C20"]),
+    ("i2-text-eof-returns", I, "            raise ConnectionError(\"Connection closed by the gateway\")", "            return", ["C13"]),
+    ("i2-serial-eof-returns", I, "            raise ConnectionError(\"Serial connection closed\")", "            return", ["C13"]),
+    ("i2-reconnect-before-status", I, "                await self._update_state(State.DISCONNECTED)\n                asyncio.create_task(self.connect())\n        self.logger.info(\"Received loop terminated\")", "                asyncio.create_task(self.connect())\n                await self._update_state(State.DISCONNECTED)\n        self.logger.info(\"Received loop terminated\")", ["C13", "C14"]),
+    ("i2-close-state-late", I, "        await self._update_state(State.CLOSED)\n        if self.writer:\n            self.writer.close()", "        if self.writer:\n            self.writer.close()\n        await self._update_state(State.CLOSED)", ["C14"]),
+    ("m2-fromjson-fields", M, "        msg.fields = [NMEA2000Field(**field) for field in data.get(\"fields\", [])]", "        msg.fields = [NMEA2000Field(**field) for field in data.get(\"fields\", [])][:32]", ["C15"]),
+]
+
 # changes under which every property still holds: the checks must stay quiet (no false alarm)
 # (more permissive range checks and an undefined STRING_LAU encoding byte are outside what C01 states)
 HARMLESS = {"e-acti-lower", "i-text-strip", "i-send-drain-once", "i-serial-read-size",
@@ -133,3 +163,4 @@ HARMLESS = {"e-acti-lower", "i-text-strip", "i-send-drain-once", "i-serial-read-
             # equivalent on well-formed input: priorities are 0..7, the plain format's length equals its token count,
             # the clients hand decode_usb exactly 20 bytes, connect() tests CLOSED again inside its retry loop
             "d-acti-prio-mask", "d-basic-length", "d-usb-len20", "i-connect-no-closed-check"}
+HARMLESS |= {"e2-acti-pgn-width"}
